@@ -62,3 +62,14 @@ def family(mod, bound_names):
     class Q: quick = False
     table = dict(m.bounds(Q))
     return chain(*[table[b] for b in bound_names])
+
+
+FAMILY = {"lock": "mutex", "trylock": "mutex", "unlock": "mutex", "acq": "sem", "acqt": "sem", "rel": "sem", "cap": "sem", "cwait": "condvar", "cwaitfor": "condvar-timed",
+          "notify": "condvar", "notifyall": "condvar", "bwait": "barrier", "put": "mailbox", "get": "mailbox", "puta": "mailbox", "geta": "mailbox", "wait": "mailbox",
+          "detach": "mailbox-detached", "test": "comm-test", "waitany": "comm-any", "testany": "comm-any", "sendf": "mailbox-filter", "recvf": "mailbox-filter",
+          "setrecv": "mailbox-permanent", "mput": "mqueue", "mget": "mqueue", "mputa": "mqueue", "mgeta": "mqueue", "mwait": "mqueue", "random": "random", "sleep": "sleep",
+          "create": "actor", "join": "actor", "joinp": "actor"}
+
+def features(prog):
+    """coarse description of what a program uses (for case keys): object families, not individual operations"""
+    return "+".join(sorted(set(FAMILY[op[0]] for a in prog["actors"] + prog.get("templates", []) for op in a if op[0] in FAMILY)))
